@@ -70,6 +70,15 @@ def regenerate_guards(pid):
         iold = it.read_text() if it.exists() else ""
         if itext != iold: it.write_text(itext)
         info["score_assembly"] = {"module": "LK.Gen.ImpC08", "obligations": "LK/Proofs/ImpC08.lean", "function": "basic/bias.py:BiasModel.compute_for_items", "changed_since_last_run": itext != iold}
+    if pid == "C05":
+        # the holdout methods (translate/py2lean_holdout.py)
+        import py2lean_holdout
+        ht = LEAN_DIR / "LK" / "Generated" / "HoldoutC05.lean"
+        try: htext = py2lean_holdout.generate(os.path.dirname(lenskit.__file__))
+        except py2lean_holdout.Unsupported as e: return "untranslatable", f"holdout methods: {e}", info
+        hold = ht.read_text() if ht.exists() else ""
+        if htext != hold: ht.write_text(htext)
+        info["holdouts"] = {"module": "LK.Gen.HoldoutC05", "obligations": "LK/Proofs/HoldoutC05.lean", "function": "splitting/holdout.py: SampleN, SampleFrac, LastN, LastFrac", "changed_since_last_run": htext != hold}
     if pid == "C06":
         # array_dcg / fixed_dcg, statement by statement (translate/py2lean_np.py)
         import py2lean_np
@@ -150,7 +159,7 @@ def main():
         if status in ("untranslatable", "obligation-broken"):
             sys.exit(search_chunking(a.pid, f"{status}: {msg}"))
         if status == "build-error":
-            if ginfo is not None and any(f"{k}{a.pid}" in msg for k in ("Guards", "Wiring", "Scatter", "Np", "Imp")):
+            if ginfo is not None and any(f"{k}{a.pid}" in msg for k in ("Guards", "Wiring", "Scatter", "Np", "Imp", "Holdout")):
                 sys.exit(obligation_broken(a.pid, "obligation-broken: " + msg.replace("\n", " | ")[:900], mod, a.tier, seed, a.replay, ginfo))
             print(f"machinery error: lake build failed\n{msg}", file=sys.stderr); sys.exit(2)
     else:
@@ -158,7 +167,7 @@ def main():
         r = subprocess.run(["lake", "build", f"LK.Props.{a.pid}", "lkdriver"], cwd=LEAN_DIR, capture_output=True, text=True, timeout=1800)
         if r.returncode != 0:
             bad = [l for l in (r.stdout + r.stderr).splitlines() if "error" in l][:8]
-            if ginfo is not None and any(any(f"{k}{a.pid}" in l for k in ("Guards", "Wiring", "Scatter", "Np", "Imp")) for l in bad):
+            if ginfo is not None and any(any(f"{k}{a.pid}" in l for k in ("Guards", "Wiring", "Scatter", "Np", "Imp", "Holdout")) for l in bad):
                 sys.exit(obligation_broken(a.pid, "obligation-broken: " + " | ".join(bad)[:900], mod, a.tier, seed, a.replay, ginfo))
             print("machinery error: lake build failed\n" + "\n".join(bad[:6]), file=sys.stderr); sys.exit(2)
     try:
